@@ -49,7 +49,7 @@ fn stream(ctx: &mut Ctx) {
     let name = format!("{}/stream", d.flavor.name());
     ctx.subject(&name);
     let b = ctx.cfg.bs;
-    let (iv, _) = wl::ctr_iv(&mut ctx.rng, d.flavor, b);
+    let (iv, _) = stream_iv(ctx, d.flavor, b);
     let (len, rc) = wl::nbytes(&mut ctx.rng, b, ctx.cfg.par, ctx.tier);
     let (msg, _) = wl::data(&mut ctx.rng, len);
     let (sched, sc) = wl::byte_schedule(&mut ctx.rng, len, b);
